@@ -55,6 +55,21 @@ def run(ctx, broken):
         res["evaluations"] += 1
         if mo is not None and io != mo and len(res["disagreements"]) < 10:
             res["disagreements"].append({"what": "site trace of history `%s` differs between implementation and model" % line[:200], "case": line})
+    # worker side: no unchecked read of an entry before it is initialised (sort tie-break, rescoring,
+    # snapshot access) - protocol histories with writers parked mid-push, counted by a cfg hook in get_unchecked
+    import ncommon
+    nh = ncommon.histories(ctx, 120 if ctx["tier"] == "quick" else 1500, extra_seed=9)
+    nrecs, nerrs, _, _ = ncommon.run(ctx, nh)
+    for e in nerrs:
+        res["disagreements"].append({"what": e})
+    for line, io, mo in nrecs:
+        res["evaluations"] += 1
+        for o in io:
+            if o.startswith("O ") and ncommon.parse_obs(o)["u"]:
+                res["failures"].append({"class": "uninit_read", "what": "an item was read through get_unchecked before the write that initialises it (no happens-before with the injector thread): %s -- history: %s" % (o, line[:400]), "case": line})
+                break
+        if io and io[0].startswith("CRASH"):
+            res["failures"].append({"class": "crash", "what": "the library crashed: %s -- history %s" % (io[0][:200], line[:300]), "case": line})
     if ctx["tier"] == "thorough":
         m = miri_probe()
         res["extra"]["miri"] = m
